@@ -261,6 +261,11 @@ func Reductions(g *Grammar, must []string, max int) []*Grammar {
 				add(c)
 			}
 		}
+		if (n.K == KLit || n.K == KClass) && n.Sp != 0 {
+			c := g.Clone()
+			nodeAt(c, p).Sp = 0
+			add(c)
+		}
 		switch n.K {
 		case KLit:
 			if len(n.Val) > 0 {
